@@ -6,6 +6,13 @@ inside `connectionLost` can and cannot change.
 namespace Txdbus.Client.Lifecycle
 open Txdbus.Client.Endpoints
 
+theorem flatMap_congr' {α β : Type} (l : List α) (f g : α → List β) (h : ∀ x ∈ l, f x = g x) :
+    l.flatMap f = l.flatMap g := by
+  induction l with
+  | nil => rfl
+  | cons a t ih =>
+    rw [List.flatMap_cons, List.flatMap_cons, h a (by simp), ih (fun x hx => h x (by simp [hx]))]
+
 /-! ## `react`: fields it never touches -/
 
 @[simp] theorem react_phase (w : Who) (r : Reaction) (s : St) : (react w r s).phase = s.phase := by
@@ -25,18 +32,34 @@ open Txdbus.Client.Endpoints
 @[simp] theorem react_current (w : Who) (r : Reaction) (s : St) : (react w r s).current = s.current := by
   cases r <;> cases w <;> simp [react, issueCall]
 
+/-! ## The reply path -/
+
+@[simp] theorem takeCall_phase (c : Call) (s : St) : (takeCall c s).phase = s.phase := by
+  unfold takeCall; cases c.timed <;> simp
+@[simp] theorem takeCall_fired (c : Call) (s : St) : (takeCall c s).fired = s.fired := by
+  unfold takeCall; cases c.timed <;> simp
+@[simp] theorem takeCall_busName (c : Call) (s : St) : (takeCall c s).busName = s.busName := by
+  unfold takeCall; cases c.timed <;> simp
+@[simp] theorem completeCall_phase (c : Call) (ok : Bool) (s : St) : (completeCall .repaired c ok s).phase = s.phase := by
+  unfold completeCall; cases c.kind <;> cases ok <;> simp [St.emit, makeProxy]
+@[simp] theorem completeCall_fired (c : Call) (ok : Bool) (s : St) : (completeCall .repaired c ok s).fired = s.fired := by
+  unfold completeCall; cases c.kind <;> cases ok <;> simp [St.emit, makeProxy]
+@[simp] theorem completeCall_busName (c : Call) (ok : Bool) (s : St) : (completeCall .repaired c ok s).busName = s.busName := by
+  unfold completeCall; cases c.kind <;> cases ok <;> simp [St.emit, makeProxy]
+
 /-- Proxies other than `p` are untouched by anything that runs on behalf of proxy `p`. -/
 theorem findProxy_modifyProxy_ne {p q : Nat} (f : Proxy → Proxy) (hf : ∀ x, (f x).id = x.id) (h : q ≠ p) :
     ∀ l : List Proxy, findProxy q (modifyProxy p f l) = findProxy q l
   | [] => rfl
   | x :: t => by
-    by_cases hx : x.id = p
-    · have : x.id ≠ q := fun e => h (e ▸ hx ▸ rfl)
-      simp [modifyProxy, findProxy, hx, hf, this]
-      intro e; exact absurd (hx ▸ e) (fun e' => h e'.symm)
-    · by_cases hq : x.id = q
-      · simp [modifyProxy, findProxy, hx, hq]
-      · simp [modifyProxy, findProxy, hx, hq, findProxy_modifyProxy_ne f hf h t]
+    unfold modifyProxy
+    split
+    · rename_i hx
+      have hxq : ¬ x.id = q := fun e => h (by rw [← e, hx])
+      have hfq : ¬ (f x).id = q := by rw [hf]; exact hxq
+      simp [findProxy, hxq, hfq]
+    · simp only [findProxy]
+      rw [findProxy_modifyProxy_ne f hf h t]
 
 theorem react_proxies_conn (c : Cb) (r : Reaction) (s : St) : (react (.connCb c) r s).proxies = s.proxies := by
   cases r <;> simp [react, issueCall]
@@ -46,8 +69,8 @@ theorem react_proxies_errback (c : Call) (r : Reaction) (s : St) : (react (.errb
 theorem react_findProxy_ne (p : Nat) (c : Cb) (r : Reaction) (s : St) (q : Nat) (h : q ≠ p) :
     findProxy q (react (.proxyCb p c) r s).proxies = findProxy q s.proxies := by
   cases r <;> simp [react, issueCall]
-  · exact findProxy_modifyProxy_ne _ (fun _ => rfl) h _
-  · exact findProxy_modifyProxy_ne _ (fun _ => rfl) h _
+  · apply findProxy_modifyProxy_ne _ _ h; intro x; rfl
+  · apply findProxy_modifyProxy_ne _ _ h; intro x; rfl
 
 /-! ## Pass 1: connection-level callbacks -/
 
@@ -71,5 +94,200 @@ theorem runConnCbs_frame (cbs : List Cb) : ∀ s : St,
     intro s
     obtain ⟨h1, h2, h3, h4, h5, h6, h7⟩ := ih (runConnCb c s)
     simp [runConnCbs, h1, h2, h3, h4, h5, h6, h7]
+
+/-- The pending table has distinct serials, all below the counter. -/
+def PendOk (s : St) : Prop :=
+  (s.pending.map (·.serial)).Nodup ∧ ∀ c ∈ s.pending, c.serial < s.nextSerial
+
+theorem pendOk_issueCall (timed : Bool) (k : CallKind) (s : St) (h : PendOk s) : PendOk (issueCall timed k s) := by
+  obtain ⟨hnd, hlt⟩ := h
+  constructor
+  · simp only [issueCall, List.map_append, List.map_cons, List.map_nil]
+    rw [List.nodup_append]
+    refine ⟨hnd, by simp, ?_⟩
+    intro a ha b hb
+    simp at hb
+    subst hb
+    obtain ⟨c, hc, rfl⟩ := List.mem_map.mp ha
+    exact Nat.ne_of_lt (hlt c hc)
+  · intro c hc
+    simp only [issueCall, List.mem_append, List.mem_singleton] at hc
+    rcases hc with hc | hc
+    · exact Nat.lt_succ_of_lt (hlt c hc)
+    · subst hc; simp [issueCall]
+
+theorem react_pendOk (w : Who) (r : Reaction) (s : St) (h : PendOk s) : PendOk (react w r s) := by
+  cases r
+  · exact h
+  · exact pendOk_issueCall _ _ _ h
+  · cases w <;> exact h
+  · cases w <;> exact h
+
+theorem react_pending_mono (w : Who) (r : Reaction) (s : St) (c : Call) (h : c ∈ s.pending) : c ∈ (react w r s).pending := by
+  cases r <;> cases w <;> simp [react, issueCall, h]
+
+theorem runConnCbs_pendOk (cbs : List Cb) : ∀ s : St, PendOk s → PendOk (runConnCbs cbs s) := by
+  induction cbs with
+  | nil => intro s h; exact h
+  | cons c t ih =>
+    intro s h
+    apply ih
+    exact react_pendOk _ _ _ h
+
+theorem runConnCbs_pending_mono (cbs : List Cb) : ∀ (s : St) (c : Call), c ∈ s.pending → c ∈ (runConnCbs cbs s).pending := by
+  induction cbs with
+  | nil => intro s c h; exact h
+  | cons d t ih =>
+    intro s c h
+    apply ih
+    exact react_pending_mono _ _ _ c h
+
+/-! ## Pass 2: the pending calls -/
+
+/-- What failing one entry of the table shows. -/
+def failFx (c : Call) : List Fx :=
+  (if c.timed then [Fx.timerCancelled c.serial] else []) ++ [Fx.callErr c.serial (errKindOf c.kind)]
+
+theorem failCall_frame (c : Call) (s : St) :
+    (failCall c s).phase = s.phase ∧ (failCall c s).fired = s.fired ∧ (failCall c s).busName = s.busName ∧
+    (failCall c s).registry = s.registry ∧ (failCall c s).proxies = s.proxies ∧
+    (failCall c s).log = s.log ++ failFx c ∧
+    (failCall c s).timers = if c.timed then s.timers.filter (· ≠ c.serial) else s.timers := by
+  unfold failCall failFx
+  cases c.timed <;> simp [St.emit, react_proxies_errback]
+
+theorem failCalls_frame (calls : List Call) : ∀ s : St,
+    (failCalls calls s).phase = s.phase ∧ (failCalls calls s).fired = s.fired ∧
+    (failCalls calls s).busName = s.busName ∧ (failCalls calls s).registry = s.registry ∧
+    (failCalls calls s).proxies = s.proxies ∧
+    (failCalls calls s).log = s.log ++ calls.flatMap failFx ∧
+    (∀ t ∈ (failCalls calls s).timers, t ∈ s.timers ∧ ∀ c ∈ calls, c.timed = true → c.serial ≠ t) := by
+  induction calls with
+  | nil => intro s; simp [failCalls]
+  | cons c t ih =>
+    intro s
+    obtain ⟨h1, h2, h3, h4, h5, h6, h7⟩ := ih (failCall c s)
+    obtain ⟨g1, g2, g3, g4, g5, g6, g7⟩ := failCall_frame c s
+    refine ⟨by simp [failCalls, h1, g1], by simp [failCalls, h2, g2], by simp [failCalls, h3, g3],
+      by simp [failCalls, h4, g4], by simp [failCalls, h5, g5], by simp [failCalls, h6, g6], ?_⟩
+    intro x hx
+    simp only [failCalls] at hx
+    obtain ⟨hx1, hx2⟩ := h7 x hx
+    rw [g7] at hx1
+    by_cases hc : c.timed = true
+    · simp [hc] at hx1
+      refine ⟨hx1.1, ?_⟩
+      intro d hd hdt
+      simp at hd
+      rcases hd with rfl | hd
+      · exact fun e => hx1.2 e.symm
+      · exact hx2 d hd hdt
+    · simp [hc] at hx1
+      refine ⟨hx1, ?_⟩
+      intro d hd hdt
+      simp at hd
+      rcases hd with rfl | hd
+      · exact absurd hdt hc
+      · exact hx2 d hd hdt
+
+/-! ## Pass 3: the proxy registry -/
+
+/-- What visiting one registry slot shows, given the proxies as they are when the walk starts. -/
+def proxyFx (proxies : List Proxy) (slot : Nat × Nat) : List Fx :=
+  match findProxy slot.2 proxies with
+  | some q => if q.alive then q.cbs.map (fun c => Fx.proxyCb slot.2 c.id) else []
+  | none => []
+
+theorem runProxyCb_frame (p : Nat) (c : Cb) (s : St) :
+    (runProxyCb p c s).phase = s.phase ∧ (runProxyCb p c s).fired = s.fired ∧
+    (runProxyCb p c s).busName = s.busName ∧ (runProxyCb p c s).registry = s.registry ∧
+    (runProxyCb p c s).timers = s.timers ∧
+    (runProxyCb p c s).log = s.log ++ [Fx.proxyCb p c.id] ∧
+    (∀ q, q ≠ p → findProxy q (runProxyCb p c s).proxies = findProxy q s.proxies) := by
+  refine ⟨by simp [runProxyCb, St.emit], by simp [runProxyCb, St.emit], by simp [runProxyCb, St.emit],
+    by simp [runProxyCb, St.emit], by simp [runProxyCb, St.emit], by simp [runProxyCb, St.emit], ?_⟩
+  intro q hq
+  simp only [runProxyCb]
+  rw [react_findProxy_ne p c _ _ q hq]
+  simp [St.emit]
+
+theorem runProxyCbs_frame (p : Nat) (cbs : List Cb) : ∀ s : St,
+    (runProxyCbs p cbs s).phase = s.phase ∧ (runProxyCbs p cbs s).fired = s.fired ∧
+    (runProxyCbs p cbs s).busName = s.busName ∧ (runProxyCbs p cbs s).registry = s.registry ∧
+    (runProxyCbs p cbs s).timers = s.timers ∧
+    (runProxyCbs p cbs s).log = s.log ++ cbs.map (fun c => Fx.proxyCb p c.id) ∧
+    (∀ q, q ≠ p → findProxy q (runProxyCbs p cbs s).proxies = findProxy q s.proxies) := by
+  induction cbs with
+  | nil => intro s; simp [runProxyCbs]
+  | cons c t ih =>
+    intro s
+    obtain ⟨h1, h2, h3, h4, h5, h6, h7⟩ := ih (runProxyCb p c s)
+    obtain ⟨g1, g2, g3, g4, g5, g6, g7⟩ := runProxyCb_frame p c s
+    refine ⟨by simp [runProxyCbs, h1, g1], by simp [runProxyCbs, h2, g2], by simp [runProxyCbs, h3, g3],
+      by simp [runProxyCbs, h4, g4], by simp [runProxyCbs, h5, g5], by simp [runProxyCbs, h6, g6], ?_⟩
+    intro q hq
+    simp only [runProxyCbs]
+    rw [h7 q hq, g7 q hq]
+
+theorem runProxies_basic (reg : List (Nat × Nat)) : ∀ s : St,
+    (runProxies .repaired reg s).phase = s.phase ∧ (runProxies .repaired reg s).fired = s.fired ∧
+    (runProxies .repaired reg s).busName = s.busName ∧ (runProxies .repaired reg s).registry = s.registry ∧
+    (runProxies .repaired reg s).timers = s.timers := by
+  induction reg with
+  | nil => intro s; simp [runProxies]
+  | cons e t ih =>
+    intro s
+    obtain ⟨k, p⟩ := e
+    simp only [runProxies]
+    cases findProxy p s.proxies with
+    | none => exact ih s
+    | some q =>
+      by_cases ha : q.alive = true
+      · have hv : Variant.repaired.snapshotCallbacks = true := rfl
+        simp only [ha, hv, if_true]
+        obtain ⟨g1, g2, g3, g4, g5, _, _⟩ := runProxyCbs_frame p q.cbs s
+        obtain ⟨h1, h2, h3, h4, h5⟩ := ih (runProxyCbs p q.cbs s)
+        exact ⟨by rw [h1, g1], by rw [h2, g2], by rw [h3, g3], by rw [h4, g4], by rw [h5, g5]⟩
+      · have ha' : q.alive = false := by simpa using ha
+        simp only [ha', Bool.false_eq_true, if_false]
+        exact ih s
+
+theorem runProxies_frame (reg : List (Nat × Nat)) (hnd : (reg.map (·.2)).Nodup) : ∀ s : St,
+    (runProxies .repaired reg s).phase = s.phase ∧ (runProxies .repaired reg s).fired = s.fired ∧
+    (runProxies .repaired reg s).busName = s.busName ∧ (runProxies .repaired reg s).registry = s.registry ∧
+    (runProxies .repaired reg s).timers = s.timers ∧
+    (runProxies .repaired reg s).log = s.log ++ reg.flatMap (proxyFx s.proxies) := by
+  induction reg with
+  | nil => intro s; simp [runProxies]
+  | cons e t ih =>
+    intro s
+    obtain ⟨k, p⟩ := e
+    have hnd' : (t.map (·.2)).Nodup := (List.nodup_cons.mp (by simpa using hnd)).2
+    have hp : p ∉ t.map (·.2) := (List.nodup_cons.mp (by simpa using hnd)).1
+    simp only [runProxies]
+    cases hf : findProxy p s.proxies with
+    | none =>
+      obtain ⟨h1, h2, h3, h4, h5, h6⟩ := ih hnd' s
+      simp [h1, h2, h3, h4, h5, h6, proxyFx, hf]
+    | some q =>
+      by_cases ha : q.alive = true
+      · have hv : Variant.repaired.snapshotCallbacks = true := rfl
+        simp only [ha, hv, if_true]
+        obtain ⟨g1, g2, g3, g4, g5, g6, g7⟩ := runProxyCbs_frame p q.cbs s
+        obtain ⟨h1, h2, h3, h4, h5, h6⟩ := ih hnd' (runProxyCbs p q.cbs s)
+        refine ⟨by rw [h1, g1], by rw [h2, g2], by rw [h3, g3], by rw [h4, g4], by rw [h5, g5], ?_⟩
+        rw [h6, g6]
+        have hcongr : t.flatMap (proxyFx (runProxyCbs p q.cbs s).proxies) = t.flatMap (proxyFx s.proxies) := by
+          apply flatMap_congr'
+          intro x hx
+          have hxp : x.2 ≠ p := fun e => hp (e ▸ List.mem_map_of_mem hx)
+          simp only [proxyFx]
+          rw [g7 x.2 hxp]
+        rw [hcongr]
+        simp [proxyFx, hf, ha]
+      · have ha' : q.alive = false := by simpa using ha
+        simp only [ha', Bool.false_eq_true, if_false]
+        obtain ⟨h1, h2, h3, h4, h5, h6⟩ := ih hnd' s
+        simp [h1, h2, h3, h4, h5, h6, proxyFx, hf, ha']
 
 end Txdbus.Client.Lifecycle
